@@ -301,6 +301,9 @@ class Exec:
         if isinstance(t, dsl._NReal):
             return NF(fresh(B, hint + "_null"), fresh(R, hint))
         if isinstance(t, dsl.Opt):
+            if isinstance(t.t, (dsl._Int, dsl._Real, dsl._Bool)) and st.ghost.get("__in_loop_havoc"):
+                # a loop-carried variable that is None or a number: (is-None flag, payload)
+                return OptV(fresh(B, hint + "_none"), fresh(sort_of(ctx, t.t), hint))
             raise Unsupported("Opt must be case split: " + hint)
         if isinstance(t, dsl.Lit):
             raise Unsupported("Lit must be case split: " + hint)
@@ -658,7 +661,17 @@ class Exec:
                     else:
                         results.append((s1, ("val", v, conds)))
                 else:
+                    # the next operand is evaluated only when this one did not decide: its obligations are checked, and
+                    # whatever its evaluation assumes is recorded, under that guard
+                    g = _b(t) if is_and else z3.Not(_b(t))
+                    n0 = len(s1.pc)
+                    s1.assume(g)
+                    k0 = len(results)
                     go(i + 1, s1, conds + [(t, v)])
+                    for (sr, _r) in results[k0:]:
+                        pc = list(sr.pc)
+                        if len(pc) > n0 and is_z3(pc[n0]) and pc[n0].eq(g):
+                            sr.pc = pc[:n0] + [z3.Implies(g, f) if is_z3(f) else f for f in pc[n0 + 1:]]
         go(0, st, [])
         out = []
         for s, r in results:
@@ -1466,6 +1479,12 @@ class Exec:
                 items = tuple(vv.f.values())
             elif isinstance(vv, Vec) and isinstance(vv.n, int):
                 items = tuple(vv.at(k) for k in range(vv.n))
+            elif isinstance(vv, Vec) and not any(isinstance(e, ast.Starred) for e in t.elts):
+                # a vector of symbolic length unpacked into m names: Python raises ValueError unless it has exactly m elements
+                m = len(t.elts)
+                self.oblig("unpack_length", "L%s" % getattr(t, "lineno", "?"), st, to_z3(vv.n) == m, line=getattr(t, "lineno", None))
+                st.assume(to_z3(vv.n) == m)
+                items = tuple(vv.at(k) for k in range(m))
             else:
                 raise Unsupported("unpacking %r" % (vv,))
             if len(items) != len(t.elts):
@@ -1819,7 +1838,10 @@ class Exec:
             if nm in tnames:
                 continue
             if nm in vars_t:
+                h.ghost = dict(h.ghost)
+                h.ghost["__in_loop_havoc"] = True
                 h.env[nm] = self.fresh_value(vars_t[nm], nm, h)
+                h.ghost.pop("__in_loop_havoc", None)
             elif nm in h.env:
                 cur = h.env[nm]
                 if isinstance(cur, Ref):
@@ -2084,6 +2106,10 @@ class IterV:
 def _pick(items, i):
     if isinstance(i, int):
         return items[i]
+    if not len(items):
+        # a symbolic position of an empty sequence: out of bounds whatever it is (real accesses carry an index_bounds
+        # obligation; in a clause the access is guarded by a length test) -- an arbitrary value
+        return fresh(I, "oob")
     val = items[-1]
     for j in range(len(items) - 2, -1, -1):
         val = merge_val(i == j, items[j], val)
